@@ -12,7 +12,7 @@ TRUSTED_BASE = [
     "Spec_C18 (lean/Verif/Spec/C18.lean) is the formal reading of the English property",
 ]
 ASSUMPTIONS = [
-    "protocol (WF) = parent register/unregister alternate, reregister only while registered, every change (child returns non-Continue, remove(), replace()) made while the parent is registered is followed by the parent's reregister before anything else, replacement children are fresh objects",
+    "protocol (WF) = parent register/unregister alternate, reregister only while registered, every change (child returns non-Continue, remove(), replace()) made while the parent is registered is followed by the parent's reregister — or by its unregister (the enclosing source was disabled or removed in the same turn) — before anything else, replacement children are fresh objects",
     "child sources do not fail on their own (only double registration / unregistration errors occur)",
 ]
 
@@ -60,7 +60,7 @@ def protocol_walk(rnd, n, init):
     holding, cur, enabled = (init != "default"), (init != "default"), True
     while len(seq) < n:
         if dirty and preg:
-            op = "reregister"
+            op = "reregister" if rnd.random() < 0.75 else "unregister"
         else:
             opts = ["map", "isnone"]
             opts += ["register"] if not preg else ["unregister", "reregister", "pe cont", "pe cont", "pe rereg",
@@ -71,7 +71,7 @@ def protocol_walk(rnd, n, init):
         if op == "register":
             preg, dirty, enabled = True, False, True
         elif op == "unregister":
-            preg = False
+            preg, dirty = False, False
         elif op == "reregister":
             dirty = False
         elif op.startswith("pe ") and preg and cur and enabled and op != "pe cont":
